@@ -340,7 +340,7 @@ func tierOf(tier string) tierParams {
 	if tier == "thorough" {
 		return tierParams{budget: 12 * time.Minute, maxRuns: 1 << 30, stall: 180 * time.Second}
 	}
-	return tierParams{budget: 50 * time.Second, maxRuns: 1 << 30, stall: 45 * time.Second}
+	return tierParams{budget: 50 * time.Second, maxRuns: 1 << 30, stall: 90 * time.Second}
 }
 
 var crashProps = map[string]bool{"C04": true, "C05": true, "C13": true, "C20": true}
@@ -434,10 +434,8 @@ func cmdCheck(args []string) int {
 		recs = append(recs, o.recs...)
 		for _, c := range o.crashes {
 			if c.stalled {
-				harnessTrouble = append(harnessTrouble, fmt.Sprintf("worker %d stalled (no progress for %v) at idx %d", w, tp.stall, c.idx))
-				if crashProps[prop] {
-					crashes = append(crashes, crash{c.idx, "STALL: a step did not reach quiescence within the wall-clock budget\n" + c.log})
-				}
+				// judged below: a stall only counts when it reproduces with that run executed alone
+				crashes = append(crashes, crash{c.idx, "STALL: a step did not reach quiescence within the wall-clock budget\n" + c.log})
 				continue
 			}
 			crashes = append(crashes, crash{c.idx, c.log})
@@ -473,6 +471,14 @@ func cmdCheck(args []string) int {
 		}
 		if reported[v.Rule+sig] {
 			continue
+		}
+		if strings.HasPrefix(c.log, "STALL") {
+			// a stall counts only if it reproduces when that run index is executed alone with a generous watchdog
+			o := runWorker(bin, prop, *tier, seed, c.idx, 1, 1, 0, filepath.Join(workDir, "stallconfirm.jsonl"), 4*tp.stall)
+			if !o.stalled {
+				fmt.Fprintf(os.Stderr, "verifctl: note: run idx %d made no progress for %v in the batch but completes when run alone (busy machine); not a stall\n", c.idx, tp.stall)
+				continue
+			}
 		}
 		reported[v.Rule+sig] = true
 		nViol++
